@@ -14,6 +14,10 @@ NA = {
  "C17": "traversal is a pure function of (tree, callback return table); the visitor allocates nothing and meets no fault or schedule",
 }
 CHECKS = {
+ "C20": dict(level="fault_enumeration", ref="5.11",
+   technique="deterministic simulation with fault injection: simulated fd layer (read/write/open/close seams) with scripted per-call transfer sizes; errno injected at every call index, open failures, every allocation index; differential oracle vs in-memory serialization/parse",
+   text="Per document, API (to_fd, to_file, to_file_ext, from_fd, from_fd_ex, from_file) and transfer-size schedule: unfaulted run, then an injected errno at every read/write call index, three open() errnos, and every allocation index inside the call. Write side: bytes received equal the in-memory serialization on success and are a strict prefix on failure, failures reported with a new message, descriptors balanced (to_file closes once, to_fd never). Read side: result equals the in-memory parse with the same depth limit; errors give NULL + message; nothing leaks. Sampled over documents.",
+   note="Exhaustive in the fault position per document/schedule (byte-wise schedules: first 200 call indices); write() never returning 0 is assumed; EINTR/EAGAIN count as failures as json-c defines them."),
  "C05": dict(level="exploration", ref="5.3",
    technique="deterministic simulation: seeded API histories over a handle pool with injected allocation failures; ownership-graph reference model; destruction observed at the allocator seam and by userdata callbacks",
    text="Seeded histories of constructors/parse/get/put/object and array mutation/set_userdata/set_serializer/deep_copy/json_pointer_set/json_patch_apply over 8 handles (shared nodes allowed, no cycles), fault-free and fault-injecting batches. After every op the set of nodes destroyed in that op must equal the set of nodes that lost their last owner in that op, put's return value must match the model count, callbacks run exactly once, failed ops leave ownership with the caller, survivors stay readable (ASan), and nothing is allocated after the final release.",
